@@ -181,6 +181,58 @@ fn gen_text(r: &mut Rng, d: u8, q: u8, n: u8, len: usize, style: u64) -> Vec<u8>
                 t.push(if r.chance(1, 90) { *r.pick(&[d, n, q]) } else { b'a' });
             }
         }
+        // long quoted fields free of the delimiter and the newline (lengths around 1–4 chunks),
+        // with / without doubled quotes and CR, as first / middle / last field, after a prefix of
+        // varying length so the field crosses 64-byte boundaries at every alignment
+        6 => {
+            let prefix = r.usize_below(70);
+            for _ in 0..prefix {
+                t.push(*r.pick(&[b'a', b'b', d, b'c', n]));
+            }
+            if !t.is_empty() && *t.last().unwrap() != n {
+                t.push(n);
+            }
+            while t.len() < len.max(80) {
+                let nf = r.range(1, 4);
+                let long_at = r.below(nf);
+                for f in 0..nf {
+                    if f > 0 {
+                        t.push(d);
+                    }
+                    if f == long_at {
+                        let fl = match r.below(5) {
+                            0 => 60 + r.usize_below(11),
+                            1 => 120 + r.usize_below(16),
+                            2 => 190 + r.usize_below(11),
+                            3 => 250 + r.usize_below(80),
+                            _ => r.usize_below(140),
+                        };
+                        let fancy = r.chance(1, 2);
+                        t.push(q);
+                        for _ in 0..fl {
+                            if fancy && r.chance(1, 30) {
+                                t.push(q);
+                                t.push(q);
+                            } else if fancy && r.chance(1, 30) {
+                                t.push(b'\r');
+                            } else {
+                                let b = *r.pick(&[b'x', b'y', b' ', b'1']);
+                                t.push(if b == d || b == n || b == q { b'z' } else { b });
+                            }
+                        }
+                        t.push(q);
+                    } else {
+                        for _ in 0..r.usize_below(4) {
+                            t.push(b'a');
+                        }
+                    }
+                }
+                t.push(n);
+            }
+            if r.chance(1, 3) {
+                t.pop();
+            }
+        }
         // random bytes with sprinkled specials
         _ => {
             for _ in 0..len {
@@ -248,7 +300,7 @@ pub fn gen(tier: Tier, r: &mut Rng, emit: &mut dyn FnMut(String)) {
             4 => r.usize_below(300),
             _ => 64 * r.usize_below(5) + *r.pick(&[0usize, 1, 63]),
         };
-        let style = (i / 6 % 6) as u64;
+        let style = (i / 6 % 8) as u64;
         let t = gen_text(r, d, q, n, len, style);
         let hx = hex_bytes(&t);
         emit(format!("C21 rows {d:02x} {q:02x} {n:02x} {hx}"));
@@ -259,7 +311,7 @@ pub fn gen(tier: Tier, r: &mut Rng, emit: &mut dyn FnMut(String)) {
         let mut t2 = t.clone();
         t2.push(n);
         emit(format!("C21 rows {d:02x} {q:02x} {n:02x} {}", hex_bytes(&t2)));
-        if t.len() <= 160 {
+        if t.len() <= 160 || (style == 6 && t.len() <= 700 && i % 3 == 0) {
             emit(format!("C21 get {d:02x} {q:02x} {n:02x} {hx}"));
         }
         // cursor operation list
